@@ -157,6 +157,49 @@ def run(chk, replay=None):
             add('events', name, base, perm_ev, not analytic, True, True, {'id': t, 'shape': [nc, nb], 'events': events[:8], 'perm': p_ev[:12]})
             add('cells', name, base, perm_cell, False, analytic, False, {'id': t, 'shape': [nc, nb], 'events': events[:8], 'perm': p_cell})
 
+    # ---------------------------------------------------------------- gridded tests on quadtree regions (cells re-ordered)
+    import mercantile
+    from csep.core.regions import QuadtreeGrid2D
+    for t in range(3 if quick else 15):
+        qks = [a + b for a in '0123' for b in '0123'] if t % 2 == 0 else ['0', '1', '20', '21', '22', '23', '30', '31', '32', '33']
+        nb = 2
+        mags = numpy.array([4.0, 5.0])
+        r = random.Random(chk.seed * 77 + t)
+        rate = {q: [10 ** r.uniform(-2, 0.5) for _ in range(nb)] for q in qks}
+        rate2 = {q: [10 ** r.uniform(-2, 0.5) for _ in range(nb)] for q in qks}
+
+        def qfc(order, table, name):
+            region = QuadtreeGrid2D.from_quadkeys(list(order), magnitudes=mags)
+            f = GriddedForecast(region=region, magnitudes=mags, data=numpy.array([table[q] for q in order], dtype=float), name=name)
+            f.start_time, f.end_time = start, end
+            return f
+        # events on tile corners / edges (the equator and the prime meridian are edges at every zoom) and inside tiles
+        pts = []
+        for _ in range(r.choice([4, 9, 15])):
+            q = r.choice(qks)
+            b_ = mercantile.bounds(mercantile.quadkey_to_tile(q))
+            fx, fy = r.choice([(0.0, 0.0), (0.5, 0.0), (0.0, 0.5), (0.5, 0.5), (0.3, 0.8)])
+            lat = b_.south if fy == 0.0 else b_.south + fy * (b_.north - b_.south)
+            pts.append((b_.west + fx * (b_.east - b_.west), lat, 4.0 + r.choice([0.0, 0.5, 1.0, 1.7])))
+
+        def qcat(region):
+            c = CSEPCatalog(data=[('e%d' % i, 1000 * i, float(la), float(lo), 5.0, float(m_)) for i, (lo, la, m_) in enumerate(pts)], region=region, name='obs')
+            return c
+        order = list(qks)
+        p_order = list(qks)
+        while p_order == order:
+            r.shuffle(p_order)
+        fa, fb = qfc(order, rate, 'A'), qfc(order, rate2, 'B')
+        fa_p, fb_p = qfc(p_order, rate, 'A'), qfc(p_order, rate2, 'B')
+        for name, fn, analytic, simfree in GT:
+            if name.startswith('binomial.binary_paired') or name.startswith('brier') or name.startswith('binomial.binary'):
+                continue
+            base = guarded_timeout(30, fn, fa, fb, qcat(fa.region))
+            perm_cell = guarded_timeout(30, fn, fa_p, fb_p, qcat(fa_p.region))
+            chk.count(2)
+            add('cells', name + '[quadtree]', base, perm_cell, False, analytic, False,
+                {'id': 'q%d' % t, 'quadkeys': order[:6], 'perm': p_order[:6], 'events': pts[:5]})
+
     # ---------------------------------------------------------------- catalog-based tests
     CT = [('catalog.number_test', lambda f, o: ce.number_test(f, o, verbose=False), True),
           ('catalog.spatial_test', lambda f, o: ce.spatial_test(f, o, verbose=False), True),
